@@ -6,6 +6,7 @@
   fuel the read path passes: each step either errors out or makes progress ≥ 1 towards a bound that is a function of the
   request and the file size only. They are the per-loop proof obligations of C11.
 -/
+import HvProps.C01
 import HvProps.C02
 import HvProps.C03
 import HvProps.C04
@@ -20,6 +21,13 @@ open Hv
 theorem vdi_read_terminates (v : Vdi.Vdi)
     (hpar : ∀ p, v.parent = some p → ∀ o l, p o l ≠ .error .nonTermination) (off len : Nat) :
     Vdi.read v off len ≠ .error .nonTermination := Vdi.read_terminates v hpar off len
+
+/-- QCOW2 `_yield_runs`: any L1 / L2 tables and sub-cluster bitmaps of any image `open` accepts — every run is ≥ 1 byte
+    long, so the fuel `len` is never exhausted (C01.yieldRuns_progress) -/
+theorem qcow2_yieldRuns_terminates (fh : File) (df : Option File) (bk : Option Qcow2.Reader) (allow : Bool)
+    (infl : Bytes → Nat → Except Err Bytes) (q : Qcow2.QCow2) (h : Qcow2.open fh df bk allow infl = .ok q) (off len : Nat) :
+    q.yieldRuns len off len ≠ .error .nonTermination :=
+  C01.yieldRuns_progress_opened fh df bk allow infl q h off len
 
 /-- VHD `_read` (fixed and dynamic): any footer, header and BAT -/
 theorem vhd_read_terminates (v : Vhd.Vhd) (off len : Nat) : v.read off len ≠ .error .nonTermination :=
